@@ -44,6 +44,26 @@ Theorem C05_nested_evaluate_noop :
 Proof. exact nested_evaluate_noop. Qed.
 Print Assumptions C05_nested_evaluate_noop.
 
+(* a pass whose slots are ARBITRARY scripts (they may emit deferred signals of the same evaluator, disconnect, destroy or move
+   signals, ask for nested passes ...), started in any reachable world: if it returns normally, what it wrote to the trace is
+   [runs (queue at the start ++ extra)]: its own invocation of every element of the queue as it stood at the start AND of
+   everything the slots queued meanwhile (extra), each once, in queue order, each followed by what its body wrote; the pass ends
+   with the queue empty and the flag down, so none of them can run again (SigDisc.runs, SigDisc.pass_reentrant) *)
+Theorem C05_pass_with_reentrant_slots :
+  forall tbl pf fuel ops d e s w',
+    let w := run tbl pf fuel ops in
+    lookup (w_evs w) e = Some s -> e_alive s = true -> e_evaluating s = false ->
+    eval_pass pf (script tbl pf d) w e = (w', None) ->
+    exists extra l, w_trace w' = l ++ w_trace w /\ runs (e_queue s ++ extra) l /\
+                    lookup (w_evs w') e = Some {| e_alive := true; e_queue := []; e_evaluating := false |}.
+Proof. intros tbl pf fuel ops d e s w' w. exact (pass_reentrant pf _ w e s w' (script_good tbl pf d) (run_winv tbl pf fuel ops)). Qed.
+Print Assumptions C05_pass_with_reentrant_slots.
+
+(* for slots that write nothing this is the FIFO statement above *)
+Theorem C05_runs_of_quiet_slots : forall q, runs q (rev (map pass_event q)).
+Proof. exact runs_quiet. Qed.
+Print Assumptions C05_runs_of_quiet_slots.
+
 (* with ARBITRARY re-entrant slot bodies: after every top-level call no evaluator is left evaluating, and (because the
    queue is cleared when the outermost pass ends) whatever was disconnected inside a pass is gone with it *)
 Theorem C05_no_pass_left_open :
